@@ -233,6 +233,11 @@ pub mod stdspec {
         ensures r <==> a@ == (*b)@;
     pub assume_specification [<String as PartialEq<str>>::eq] (a: &String, b: &str) -> (r: bool)
         ensures r <==> a@ == b@;
+    // TRUSTED: `!=` is the negation of `==` for these impls (std's default PartialEq::ne).
+    pub assume_specification<'a> [<String as PartialEq<&'a str>>::ne] (a: &String, b: &&str) -> (r: bool)
+        ensures r <==> a@ != (*b)@;
+    pub assume_specification [<String as PartialEq<str>>::ne] (a: &String, b: &str) -> (r: bool)
+        ensures r <==> a@ != b@;
 //# section: stdspec-lowercase
     pub uninterp spec fn lowercase(s: Seq<char>) -> Seq<char>;
     // TRUSTED: str::to_lowercase is a function of the text.
